@@ -69,7 +69,8 @@ def run(ctx):
     base = 10 ** 6
     for i in range(nrand):
         scns.append(random_scenario(rnd, base + i, ctx.seed))
-    # two crafted by-UUID fetches that re-confirm KF-C18-1 on every run
+    # two crafted by-UUID fetches: regression scenarios for KF-C18-1 (repaired by 145376f; a block locator
+    # at the end of a line followed by a stream whose name contains "+A")
     for i in range(2):
         scns.append(dict(id=2 * base + i, n=1 + i, mode="uuid", home=1, plan=["s404", "mismatch", "s404", "s404", "s404"],
                          steps=[{"b": 1, "k": "mismatch"}], rseed=ctx.seed, req="exact", origin="crafted",
